@@ -55,7 +55,7 @@ def gen_behaviours(work, consts, mode, seed, num=3000, depth=80, timeout=1800, l
             raise Undecided("behaviour generation timed out")
         if r["violated"] or r["error"]:
             raise Undecided("behaviour generation failed: %s %s\n%s" % (r["violated"], r["error"], r["tail"][-2000:]))
-    behs = parse_behaviours(r["outfile"], limit=limit)
+    behs = parse_behaviours(r["outfile"], limit=limit, seed=seed)
     if not behs:
         raise Undecided("no behaviours generated\n" + r["tail"][-2000:])
     return behs, r
